@@ -200,3 +200,24 @@ Proof. exact solution_F_split_equals_whole. Qed.
 Example C06_uniqueness_nonvacuous :
   forall k t, (k < 9)%nat -> Rabs (Lcomp (fun _ => shear_L) k t) <= 1.
 Proof. exact shear_L_bounded_proof. Qed.
+(* ---- round 5: where the integration of F starts and what a bulk update returns (Model_minerals.y_start,
+   bulk_update, bulk_y0; tied to the source by Inst_minerals_drv: lsoda_args_inst_*, update_all_inst_1_{2,3}) -- *)
+From PV Require Import Proofs_driver.
+
+(* the F block of the vector handed to the integrator is the caller's deformation gradient *)
+Theorem C06_integration_starts_at_given_F : forall (Fd : list R) (s : @snapshot NumR),
+  length Fd = 9%nat -> @ev_F NumR (@y_start NumR Fd s) = Fd.
+Proof. exact y_start_F. Qed.
+
+(* bulk clause: update_all hands the SAME starting F to every mineral's integrator ... *)
+Theorem C06_bulk_same_starting_F : forall (Fd : list R) (hs : list (@history NumR)), length Fd = 9%nat ->
+  Forall (fun y0 => @ev_F NumR y0 = Fd) (@bulk_y0 NumR Fd hs).
+Proof. exact bulk_y0_same_F. Qed.
+
+(* ... and returns the F block of the LAST mineral's integrator vector *)
+Theorem C06_bulk_returns_last_F_block : forall n chi (ms : list (@history NumR * list R)) (h : @history NumR) (y : list R),
+  length y = (9 + 10 * n)%nat -> fst (bulk_pairs n chi (ms ++ [(h, y)])) = Ok (firstn 9 y).
+Proof. exact bulk_returns_last_F_block. Qed.
+
+Example C06_bulk_nonvacuous : length id9 = 9%nat /\ length (@y_start NumR id9 snap_ex) = (9 + 10 * 2)%nat.
+Proof. exact bulk_nonvacuous_proof. Qed.
